@@ -15,7 +15,7 @@ func init() {
 			"the consumer returns nil only for an empty queue, waits for reserved-but-unpublished slots, clears a slot before advancing, follows the jump marker; every slot access is atomic; the cache pops only under the eviction lock and never drops a task it could not push. "+
 			"NOT decided: exactly-once / per-producer FIFO delivery over all interleavings.",
 		[]string{"sync/atomic operations are sequentially consistent (Go memory model)", "there is a single consumer (decided separately by C16.single)"},
-		ruleC16Reserve, ruleC16Full, ruleC16Resize, ruleC16Pop, ruleC16Atomic, ruleC16Single, ruleC14After, ruleC16Init, ruleC16Order)
+		ruleC16Reserve, ruleC16Full, ruleC16Resize, ruleC16Pop, ruleC16Atomic, ruleC16Single, ruleC14After, ruleC16Init, ruleC16Order, ruleC16Consume)
 }
 
 const queuePkg = "internal/deque/queue"
@@ -374,7 +374,7 @@ func ruleC16Full(cx *Ctx) {
 					if d, isD := b.Y.(*ssa.BinOp); isD && d.Op == token.SUB {
 						px, okx := d.X.(*ssa.Parameter)
 						py, oky := d.Y.(*ssa.Parameter)
-						if okx && oky && px == avail.Params[1] && py == avail.Params[2] {
+						if okx && oky && px == bparam(avail, 1) && py == bparam(avail, 2) {
 							ok = true
 						}
 					}
@@ -408,8 +408,8 @@ func ruleC16Resize(cx *Ctx) {
 			nb = c
 		}
 	})
-	pIndex := fn.Params[3]
-	oldMask := fn.Params[1]
+	pIndex := bparam(fn, 3)
+	oldMask := bparam(fn, 1)
 	for _, s := range slotOps(cx, fn, "StorePointer") {
 		switch {
 		case s.base == nb:
@@ -758,4 +758,109 @@ func ruleC16Order(cx *Ctx) {
 		}
 	})
 	cx.R.Check(d != nil && r != nil && instrDominates(d, r), rule, funcName(maint), "drain ≺ own task", cx.P.Pos(maint.Pos()), "drainWriteBuffer precedes runTask(t): events of one producer are consumed in submission order")
+}
+
+// ruleC16Consume: an event taken out of the write buffer is applied.
+func ruleC16Consume(cx *Ctx) {
+	const rule = "C16.consume"
+	cx.R.Rule(rule, 1, "every task popped from the write buffer (non-nil result of TryPop on cache.writeBuffer) is handed to runTask before the consumer pops again, returns or panics: a popped event is never dropped")
+	wb := cx.needField(rule, "", "cache", "writeBuffer")
+	tryPop := cx.need(rule, queuePkg, "MPSC", "TryPop")
+	rt := cx.need(rule, "", "cache", "runTask")
+	if wb == nil || tryPop == nil || rt == nil {
+		return
+	}
+	n := 0
+	for _, fn := range cx.P.FuncsOfPkg("") {
+		name := funcName(fn)
+		allInstrs(fn, func(in ssa.Instruction) {
+			c, ok := in.(*ssa.Call)
+			if !ok || !isCallTo(c, tryPop) || !sameField(recvField(c), wb) {
+				return
+			}
+			n++
+			// values that carry the popped task: the call and phis over it
+			carries := map[ssa.Value]bool{c: true}
+			for changed := true; changed; {
+				changed = false
+				for v := range carries {
+					for _, u := range usesOf(v) {
+						if ph, ok := u.(*ssa.Phi); ok && !carries[ph] {
+							carries[ph] = true
+							changed = true
+						}
+					}
+				}
+			}
+			isRun := func(x ssa.Instruction) bool {
+				if !isCallTo(x, rt) {
+					return false
+				}
+				a := callArgs(x)
+				return len(a) == 1 && carries[a[0]]
+			}
+			// edges on which the result is nil need no consumer
+			cut := map[edge]bool{}
+			allInstrs(fn, func(x ssa.Instruction) {
+				if ifi, ok := x.(*ssa.If); ok {
+					if v, isEq, ok := nilCmp(ifi.Cond); ok && carries[v] {
+						idx := 0
+						if !isEq {
+							idx = 1
+						}
+						cut[edge{ifi.Block(), idx}] = true
+					}
+				}
+			})
+			visited := map[*ssa.BasicBlock]bool{}
+			var witness []string
+			var walk func(b *ssa.BasicBlock, i int, path []string) bool
+			walk = func(b *ssa.BasicBlock, i int, path []string) bool {
+				path = append(path, blockDesc(b))
+				for ; i < len(b.Instrs); i++ {
+					x := b.Instrs[i]
+					if isRun(x) {
+						return true
+					}
+					bad := ""
+					switch x.(type) {
+					case *ssa.Return:
+						bad = "-> return"
+					case *ssa.Panic:
+						bad = "-> panic"
+					}
+					if x == ssa.Instruction(c) {
+						bad = "-> next pop"
+					}
+					if bad != "" {
+						witness = append(append([]string{}, path...), bad)
+						return false
+					}
+				}
+				for si, s := range b.Succs {
+					if cut[edge{b, si}] {
+						continue
+					}
+					if s == c.Block() {
+						// back to the pop: its block is walked from the top up to the pop itself
+						if !walk(s, 0, path) {
+							return false
+						}
+						continue
+					}
+					if visited[s] {
+						continue
+					}
+					visited[s] = true
+					if !walk(s, 0, path) {
+						return false
+					}
+				}
+				return true
+			}
+			pt := ptOf(c)
+			ok2 := walk(pt.B, pt.I+1, nil)
+			cx.R.Check(ok2, rule, name, fmt.Sprintf("pop #%d applied", n), cx.P.where(c), "a popped task reaches runTask on every path before the next pop / return / panic", witness...)
+		})
+	}
 }
